@@ -679,6 +679,10 @@ func (c *FnCtx) trCall(e *Expr, env *Env) (Term, types.Type) {
 			c.specFail("%v", err)
 		}
 		return c.unbox(a, ty), ty
+	case "boxOf":
+		// boxOf(x): x as an interface value (what the code gets from a conversion to error / any)
+		a, at := arg(0)
+		return c.box(a, at), types.Universe.Lookup("any").Type()
 	case "asString":
 		a, _ := arg(0)
 		return c.unbox(a, tString), tString
